@@ -58,11 +58,16 @@ type c32Round struct {
 
 type c32Case struct {
 	ShardMerging bool
-	Simple       []c32Simple   `json:",omitempty"`
-	Trash        []c32Trash    `json:",omitempty"`
-	Compound     []c32Compound `json:",omitempty"`
-	Tmp          []string      `json:",omitempty"`
-	Rounds       []c32Round
+	// Overlap keeps a repository alive in a compound shard although it is also
+	// alive in simple shards: the directory a crash leaves between writing the
+	// new shards and tombstoning / deleting the old ones (Builder.Finish,
+	// zoekt-merge-index).
+	Overlap  bool          `json:",omitempty"`
+	Simple   []c32Simple   `json:",omitempty"`
+	Trash    []c32Trash    `json:",omitempty"`
+	Compound []c32Compound `json:",omitempty"`
+	Tmp      []string      `json:",omitempty"`
+	Rounds   []c32Round
 }
 
 const c32MaxID = 7
@@ -124,6 +129,7 @@ func genC32(rt *rapid.T) c32Case {
 		}
 	}
 	if c.ShardMerging {
+		c.Overlap = g.Bool(25, "overlap")
 		for p := range c32PoolMembers {
 			if g.Int(0, 9, "compound") < 3 {
 				continue
@@ -164,9 +170,9 @@ func genC32(rt *rapid.T) c32Case {
 // c32Normalize enforces the input domain on a case (generated or replayed):
 //   - compound shards exist only with shard merging (the only configuration
 //     that creates them);
-//   - a repository is alive in at most one compound shard and never alive in a
-//     compound shard and a simple shard at once (re-indexing tombstones the
-//     compound copy);
+//   - a repository is alive in at most one compound shard and, unless Overlap
+//     (crash window), not alive in a compound shard and a simple shard at once
+//     (re-indexing tombstones the compound copy);
 //   - one file per name in a directory.
 func c32Normalize(c *c32Case) {
 	if !c.ShardMerging {
@@ -209,7 +215,7 @@ func c32Normalize(c *c32Case) {
 			tomb[id] = true
 		}
 		for _, id := range c32PoolMembers[cs.Pool] {
-			if !tomb[id] && (aliveSimple[id] || aliveCompound[id]) {
+			if !tomb[id] && ((aliveSimple[id] && !c.Overlap) || aliveCompound[id]) {
 				tomb[id] = true
 			}
 			if !tomb[id] {
@@ -683,11 +689,10 @@ func c32Check(before, after map[uint32]*c32Loc, assigned map[uint32]bool, now ti
 }
 
 // c32Domain reports whether the directory is still inside the input domain
-// (a repository alive in at most one compound shard and not alive in simple
-// and compound shards at once).
+// (a repository alive in at most one compound shard).
 func c32Domain(inv map[uint32]*c32Loc) bool {
 	for _, l := range inv {
-		if len(l.Compound) > 1 || (len(l.Compound) > 0 && len(l.Simple) > 0) {
+		if len(l.Compound) > 1 {
 			return false
 		}
 	}
@@ -785,7 +790,7 @@ func c32NameClash(c *c32Case) bool {
 func TestVerif_C32(t *testing.T) {
 	rec := kit.Open(t, "C32",
 		"rapid-generated index directories over 7 repository ids: per repository absent / 1-2 simple shards / renamed (two names) / left to compound shards, a trash entry (1-2 shards, ages 5min..47h, exactly 24h, +-1min, future-dated, two names), 0-4 pre-built compound shards with per-member tombstones (only with shard merging on), temp files; x 1-3 rounds of (assigned subset, clock advance 0..49h). A case = (directory history, round); non-trivial = in that round an assigned repository is restored (from trash or by removing a tombstone) and an unassigned one is tombstoned in a compound shard; distinct by hash of case+round",
-		"input domain: compound shards only together with shard merging; a repository is alive in at most one compound shard and never alive in a compound and a simple shard at once (re-indexing tombstones the compound copy); one repository id per name",
+		"input domain: compound shards only together with shard merging; a repository is alive in at most one compound shard; alive in a compound and in simple shards at once only in the 25% of directories modelling a crash between writing new shards and tombstoning the old copy; one repository id per name",
 		"the trash is judged per repository as cleanup_test.go documents: a repository's trash entry is old as soon as one of its shards is older than 24h (strictly)",
 		"repositories whose alive shards disagree on the name may be deleted outright whether assigned or not (documented in cleanup.go)",
 		"an assigned repository that is only present as an old (>24h) trash entry need not be restored; a tombstoned assigned repository must be revived (cleanup.go: 'Restore deleted or tombstoned repos')",
